@@ -61,6 +61,14 @@
                                                    the scope exit) compiled, run and compared with eval_program by
                                                    computation; C06_ex_rep_*_hyps: the hypotheses on its run.
 
+   The refinement THROUGH THE COMPILER, fragment FC (closures over the locals of main, two sibling closures sharing a
+   captured variable, writes seen by main; end of this file; C06SimFcDefs.v, C06SimFcRef.v .. C06SimFcRef4.v,
+   C06SimFcScope.v): the reference half is PROVED for every program of the fragment - C06_fc_reference_meaning:
+   eval_program computes the direct meaning obs_fc, in which all closures and main work on ONE store -, with
+   C06_fc_well_scoped; the compiler half (the exact code / labels emitted, code_all_fc / labels_fc) and the VM half are
+   DEFINED and CHECKED BY COMPUTATION on the instances C06_fc_instance / C06_fc_instance_ok only.  Missing for the
+   closed theorem C06_closure_sim_fc: the proofs of these two halves for all programs of FC.
+
    Still only STATED (not proved): the whole-program refinement (the induction that chains the steps above along
    compiled code, C06_closure_sim_f1),
 
@@ -1133,3 +1141,14 @@ Example C06_fc_instance_ok :
   fc_agrees fc_example_ok 500 ["out"; "seen"; "r"; "mine"; "x"; "inc"; "get"]
     (KOk, [(s "r", TrNil); (s "out", TrInt 30); (s "seen", TrInt 3); (s "mine", TrInt 30)]).
 Proof. vm_compute. repeat split; repeat constructor. Qed.
+
+(* the programs of FC lie in the class the properties quantify over *)
+From Cao Require C06SimFcScope.
+Theorem C06_fc_well_scoped :
+  forall M : module, C06SimFcDefs.in_fc M = true -> well_scoped M = true.
+Proof. exact C06SimFcScope.in_fc_well_scoped. Qed.
+Print Assumptions C06_fc_well_scoped.
+Example C06_fc_instance_well_scoped :
+  C06SimFcDefs.in_fc fc_example = true /\ well_scoped fc_example = true /\
+  C06SimFcDefs.in_fc fc_example_ok = true /\ well_scoped fc_example_ok = true.
+Proof. vm_compute. repeat split; reflexivity. Qed.
